@@ -12,6 +12,7 @@ import (
 	"fmt"
 	"io"
 	"strconv"
+	"strings"
 	"sync"
 
 	"github.com/gauss-project/aurorafs/pkg/boson"
@@ -218,6 +219,7 @@ type Runner struct {
 	size    int64
 	pos     int64 // the oracle's own cursor
 	syn     *synthStore
+	spy     *trieSpy // new small: observes the hash-trie writer (verif hook hashtrie.VerifPeek)
 }
 
 // total is the length of the content; slice its bytes [at, at+n).
@@ -330,13 +332,73 @@ func (rn *Runner) Close() {
 	}
 }
 
-func smallPipeline(ctx context.Context, s storage.Putter, c, b int) pipeline.Interface {
+// trieSpy sits between the store writer and the hash-trie writer of a small pipeline and reads the
+// writer's cursors, full flag and live buffer prefix (verif hook hashtrie.VerifPeek) after EVERY
+// ChainWrite and after Sum.  flush() reports the number of calls since the last flush, the last
+// snapshot in clear and a chained digest of all of them; the literal Lean model
+// (Aurora.HashTrieBuf) prints the same field.
+type trieSpy struct {
+	w    pipeline.ChainWriter
+	n    int
+	h    uint64
+	last string
+	buf  int
+}
+
+func newTrieSpy(w pipeline.ChainWriter) *trieSpy {
+	t := &trieSpy{w: w}
+	t.snap()
+	t.n, t.h = 0, 0
+	return t
+}
+
+func (t *trieSpy) snap() {
+	st, ok := hashtrie.VerifPeek(t.w)
+	if !ok {
+		t.last = "nopeek"
+		return
+	}
+	parts := make([]string, 0, 8)
+	for _, c := range st.Cursors[1:] {
+		parts = append(parts, strconv.Itoa(c))
+	}
+	f := 0
+	if st.Full {
+		f = 1
+	}
+	t.buf = st.BufLen
+	t.last = fmt.Sprintf("cur=%s f=%d live=%016x", strings.Join(parts, ","), f, Fnv(st.Live))
+	t.n++
+	var l [8]byte
+	binary.LittleEndian.PutUint64(l[:], t.h)
+	t.h = Fnv(append(l[:], []byte(t.last)...))
+}
+
+func (t *trieSpy) ChainWrite(p *pipeline.PipeWriteArgs) error {
+	err := t.w.ChainWrite(p)
+	t.snap()
+	return err
+}
+
+func (t *trieSpy) Sum() ([]byte, error) {
+	r, err := t.w.Sum()
+	t.snap()
+	return r, err
+}
+
+func (t *trieSpy) flush() string {
+	s := fmt.Sprintf(" cw=%d %s h=%016x", t.n, t.last, t.h)
+	t.n, t.h = 0, 0
+	return s
+}
+
+func smallPipeline(ctx context.Context, s storage.Putter, c, b int) (pipeline.Interface, *trieSpy) {
 	short := func() pipeline.ChainWriter {
 		return bmt.NewBmtWriter(pstore.NewStoreWriter(ctx, s, storage.ModePutUpload, nil))
 	}
-	tw := hashtrie.NewHashTrieWriter(c, b, boson.HashSize, short)
+	tw := newTrieSpy(hashtrie.NewHashTrieWriter(c, b, boson.HashSize, short))
 	lsw := pstore.NewStoreWriter(ctx, s, storage.ModePutUpload, tw)
-	return feeder.NewChunkFeederWriter(c, bmt.NewBmtWriter(lsw))
+	return feeder.NewChunkFeederWriter(c, bmt.NewBmtWriter(lsw)), tw
 }
 
 // smallEncPipeline assembles the writers of builder.newEncryptionPipeline with chunk size c and
@@ -470,7 +532,7 @@ func uploadOnce(data []byte, c, b int, small bool) ([]byte, error) {
 	st := NewStore(false)
 	var p pipeline.Interface
 	if small {
-		p = smallPipeline(ctx, st, c, b)
+		p, _ = smallPipeline(ctx, st, c, b)
 	} else {
 		p = builder.NewPipelineBuilder(ctx, st, storage.ModePutUpload, false)
 	}
@@ -580,8 +642,8 @@ func (rn *Runner) Step(ctx *core.Ctx, op []string) string {
 		}
 		rn.reset(modeSmall)
 		rn.sc, rn.sb = c, b
-		rn.p = smallPipeline(context.Background(), rn.st, c, b)
-		return "ok"
+		rn.p, rn.spy = smallPipeline(context.Background(), rn.st, c, b)
+		return fmt.Sprintf("ok buf=%d %s", rn.spy.buf, rn.spy.last)
 	case len(op) == 5 && op[0] == "new" && op[1] == "synth":
 		seed, e1 := strconv.ParseUint(op[2], 10, 64)
 		size, e2 := strconv.ParseInt(op[3], 10, 64)
@@ -660,6 +722,9 @@ func (rn *Runner) Step(ctx *core.Ctx, op []string) string {
 			tot += n
 			b = b[len(seg):]
 		}
+		if rn.spy != nil {
+			return strconv.Itoa(tot) + rn.spy.flush()
+		}
 		return strconv.Itoa(tot)
 	case len(op) == 1 && op[0] == "sum":
 		if rn.summed {
@@ -704,6 +769,9 @@ func (rn *Runner) Step(ctx *core.Ctx, op []string) string {
 			if other, err := uploadOnce(rn.written, c, b, rn.mode == modeSmall); err != nil || !bytes.Equal(other, sum) {
 				ctx.Fail("segmentation-dependent-ref", "this segmentation %x, single write %x err=%v (%d bytes)", sum, other, err, len(rn.written))
 			}
+		}
+		if rn.spy != nil {
+			return fmt.Sprintf("ok %s %d %016x", hex.EncodeToString(sum), rn.st.NPuts, rn.st.Dig) + rn.spy.flush()
 		}
 		return fmt.Sprintf("ok %s %d %016x", hex.EncodeToString(sum), rn.st.NPuts, rn.st.Dig)
 	case len(op) == 1 && op[0] == "open":
